@@ -5,35 +5,35 @@
   `get_default_mode` methods of the node classes it calls:
 
     nodeInfo      get_node_info_to_save (user metadata + raw priority/delete/allow_new/safe) followed by
-                  the elision loop: an entry is dropped when it is None, when it equals the value on the
-                  `dumper.metadata` stack, or when it equals the type default (`_default_priority`,
-                  class `_default_delete`, `_default_allow_new`, and — for `safe` — the NODE's own
-                  `_default_safe`, i.e. the source-level flag)
-    kindTag       `ayns.tag` of the node class (`!null` for a None value; FStrNode inherits `!eval`)
-    isShortcut    the single-simple-tag shortcut (`!force`, `!del`, … instead of `!metadata:…`); the
-                  entry turned into a simple tag is REMOVED from the metadata before the stack push
-    pushStack     `dumper.metadata.append({**parent_metadata, **metadata})`, composed nodes only
+                  the elision loop.  With `p` the value on the `dumper.metadata` stack (None when no
+                  enclosing dumped node states the flag) and `d` the type default, an explicit value `v`
+                  is dropped when it is redundant:
+                    priority / allow_new   v == (p if p is not None else d)
+                    safe                   v == p          (no default: it belongs to the source, not to the node)
+                    delete                 function node: v is True   (the constructor sets it itself)
+                                           v is True: never           (drives the remove-emptied-key idiom)
+                                           v is False, p is None, composed node: never (handed down to children)
+                                           otherwise: v == (p if p is not None else d)
+    kindTag       `ayns.tag` of the node class (`!null` for a None value)
+    pushStack     `child_metadata = {**parent_metadata, **metadata}`, computed BEFORE the single-flag
+                  shortcut turns an entry into a simple tag (`!force`, `!del`, …), then its `delete`
+                  entry is overwritten by what the node hands down to its children
+                  (`_get_child_kwargs()['implicit_delete']`: explicit, inherited, or the class default
+                  of lists and function nodes) when that is not None; pushed for composed nodes only
     representWith the recursion over children with the pushed stack
 
   The result is a `Raw`: what PyYAML composes when the dumped text is parsed again (tag kind, decoded
-  constructor keywords, children).  Text-level emission (quoting, the unquoted `repr` of tagged
-  scalars) is not modelled; `.error` records the one case in which there is no such tree:
-    noMetadataForm  metadata on a node kind whose tag has no `:metadata` form (`!append`, `!prev`, `!import`,
-                    `!include`, `!fstr`): the emitted tag `!append:<hex>` has no constructor
-  Repaired in /repo and followed here: `!clear` is dumped as a value-less `!clear[:metadata]`; an
-  f-string node has its own tag `!fstr`; `safe=True` as the only entry is written as `!safe`, which the
-  loader reads as the keyword `safe=True` (in `Raw`: the plain tag with `safe := some true`); a `!path`
-  without reference point is written as the mapping `{values, ref_point: '', source_file}` which the
-  `!path` constructor now takes as keyword arguments — with metadata the tag is `!path:<hex>`, the
-  multi-constructor reads the hex as reference point, the mapping's own `ref_point: ''` overrides it
-  and the metadata is silently dropped.
+  constructor keywords, children).  Every node kind has a `:metadata` tag form, so there always is
+  such a tree; whether the keywords are written as one simple tag or as `!metadata:<hex>` does not
+  show in `Raw`.  Text-level emission (quoting) is PyYAML's and is not modelled.
+  Kind-specific: an f-string node has its own tag `!fstr`; `!clear` is value-less; a `!path` is
+  written as the mapping `{values, ref_point, source_file}` that its constructor takes as keyword
+  arguments — for a bare `!path` with metadata the tag is `!path:<hex>`, the multi-constructor reads
+  the hex as reference point, the mapping's `ref_point: ''` overrides it and the metadata is
+  dropped; `PrevNode.__init__` ignores its keywords (as the loader model does).
 -/
 import AY.Model.Construct
 namespace AY
-
-inductive DumpErr where
-  | noMetadataForm
-  deriving DecidableEq, Repr, Inhabited
 
 /-- the inferable entries of `dumper.metadata[-1]` (user metadata keys never collide with them) -/
 structure DStack where
@@ -43,19 +43,34 @@ structure DStack where
   safe : Option Bool := none
   deriving DecidableEq, Repr, Inhabited
 
-/-- one round of the elision loop: `None`, equal to the stack value, or equal to the type default -/
-def keepFlag {α : Type} [DecidableEq α] (cur parent : Option α) (dflt : α) : Option α :=
+/-- one round of the elision loop for priority / allow_new / safe: dropped when `None` or when equal to
+    what the re-parsed node would get anyway — the stack value, else the type default (`none` for safe) -/
+def keepFlag {α : Type} [DecidableEq α] (cur parent dflt : Option α) : Option α :=
   match cur with
   | none => none
-  | some c => if parent = some c || c = dflt then none else some c
+  | some c => if some c = parent.or dflt then none else some c
+
+/-- the elision of `delete` (`isFunc`: FunctionNode, `isComp`: ComposedNode, `dflt`: class default) -/
+def keepDel (isFunc isComp : Bool) (cur parent : Option Bool) (dflt : Bool) : Option Bool :=
+  match cur with
+  | none => none
+  | some v =>
+    if isFunc then (if v then none else some false)
+    else if v then some true
+    else if parent.isNone && isComp then some false
+    else if some false = parent.or (some dflt) then none else some false
+
+def Node.isFuncNode : Node → Bool
+  | .comp _ k _ => k.isFunc
+  | .leaf .. => false
 
 /-- `get_node_info_to_save()` after the elision against `parent_metadata` and `get_default_mode()` -/
 def nodeInfo (st : DStack) (n : Node) : CtorKw :=
   let f := n.flags
-  { prio := keepFlag f.prio st.prio Tables.defaultPriority,
-    del := keepFlag f.del st.del n.defaultDel,
-    new := keepFlag f.new st.new Tables.defaultAllowNew,
-    safe := keepFlag f.safe st.safe f.dSafe,
+  { prio := keepFlag f.prio st.prio (some Tables.defaultPriority),
+    del := keepDel n.isFuncNode n.isComp f.del st.del n.defaultDel,
+    new := keepFlag f.new st.new (some Tables.defaultAllowNew),
+    safe := keepFlag f.safe st.safe none,
     md := f.md }
 
 def CtorKw.flagCount (kw : CtorKw) : Nat :=
@@ -64,101 +79,76 @@ def CtorKw.flagCount (kw : CtorKw) : Nat :=
 
 def CtorKw.isEmpty (kw : CtorKw) : Bool := kw.flagCount == 0 && kw.md.isEmpty
 
-/-- `if not tag and len(metadata) == 1` and the only entry is one of `tags_to_infer` -/
-def isShortcut (tagged : Bool) (kw : CtorKw) : Bool :=
-  !tagged && kw.md.isEmpty && kw.flagCount == 1
+/-- `{**parent_metadata, **metadata}` with `delete` replaced by the handed-down `implicit_delete`
+    (`handed`) when there is one: what a composed node hands down on the dumper's stack -/
+def pushStack (st : DStack) (kw : CtorKw) (handed : Option Bool) : DStack :=
+  { prio := kw.prio.or st.prio, del := handed.or (kw.del.or st.del), new := kw.new.or st.new,
+    safe := kw.safe.or st.safe }
 
-/-- `{**parent_metadata, **metadata}` with the metadata that is left after the shortcut -/
-def pushStack (st : DStack) (tagged : Bool) (kw : CtorKw) : DStack :=
-  if isShortcut tagged kw then st
-  else { prio := kw.prio.or st.prio, del := kw.del.or st.del, new := kw.new.or st.new, safe := kw.safe.or st.safe }
+/-- `node._get_child_kwargs().get('implicit_delete')` (a stream hands down nothing) -/
+def handedDelete (f : Flags) (k : CompKind) : Option Bool :=
+  match childKw f k with
+  | some kw => kw.iDel
+  | none => none
 
 /-- the tag of untagged-class nodes: none, or the merge-control form when something is left to say -/
 def plainTag (kw : CtorKw) : TagKind := if kw.isEmpty then .none else .plain
 
 /-- scalars and the other leaf classes -/
-def representLeaf (st : DStack) (f : Flags) (k : LeafKind) : Except DumpErr Raw :=
+def representLeaf (st : DStack) (f : Flags) (k : LeafKind) : Raw :=
   let kw := nodeInfo st (.leaf f k)
-  let noMd (r : Raw) : Except DumpErr Raw := if kw.isEmpty then .ok r else .error .noMetadataForm
   match k with
-  | .scalar .null => .ok (.scalar .null kw .empty)
-  | .scalar v => .ok (.scalar (plainTag kw) kw (.lit v))
-  | .xref p => .ok (.scalar .xref kw (.text p))
-  | .prev p => noMd (.scalar .prev kw (.text p))
-  | .eval c => .ok (.scalar .eval kw (.text c))
-  | .fstr c => noMd (.scalar .fstr kw (.text c))        -- `!fstr` has no `:metadata` form
-  | .imp nm => noMd (.scalar .imp kw (.text nm))
-  | .required => .ok (.scalar .required kw .empty)
-  | .clear => .ok (.scalar .clear kw .empty)
-  | .incl fs => noMd (.seq .incl kw (fs.map (fun s => Raw.scalar .none {} (.lit (.str s)))))
+  | .scalar .null => .scalar .null kw .empty
+  | .scalar v => .scalar (plainTag kw) kw (.lit v)
+  | .xref p => .scalar .xref kw (.text p)
+  | .prev p => .scalar .prev kw (.text p)
+  | .eval c => .scalar .eval kw (.text c)
+  | .fstr c => .scalar .fstr kw (.text c)
+  | .imp nm => .scalar .imp kw (.text nm)
+  | .required => .scalar .required kw .empty
+  | .clear => .scalar .clear kw .empty
+  | .incl fs => .seq .incl kw (fs.map (fun s => Raw.scalar .none {} (.lit (.str s))))
 
 /-- the composed classes, children already represented -/
-def representComp (k : CompKind) (kw : CtorKw) (seqItems : List Raw) (mapItems : List (Key × Raw)) :
-    Except DumpErr Raw :=
+def representComp (k : CompKind) (kw : CtorKw) (seqItems : List Raw) (mapItems : List (Key × Raw)) : Raw :=
   match k with
-  | .dict => .ok (.map (plainTag kw) kw mapItems)
-  | .call fn => .ok (.map (.call fn) kw mapItems)
-  | .bind fn => .ok (.map (.bind fn) kw mapItems)
-  | .list => .ok (.seq (plainTag kw) kw seqItems)
-  | .stream => .ok (.seq (plainTag kw) kw seqItems)
-  | .append => if kw.isEmpty then .ok (.seq .append kw seqItems) else .error .noMetadataForm
-  | .extend => .ok (.seq .extend kw seqItems)
+  | .dict => .map (plainTag kw) kw mapItems
+  | .call fn => .map (.call fn) kw mapItems
+  | .bind fn => .map (.bind fn) kw mapItems
+  | .list => .seq (plainTag kw) kw seqItems
+  | .stream => .seq (plainTag kw) kw seqItems
+  | .append => .seq .append kw seqItems
+  | .extend => .seq .extend kw seqItems
   | .path r =>
     -- the dumped mapping {values, ref_point, source_file} becomes keyword arguments of PathNode; for a
     -- bare `!path` with metadata (`!path:<hex>`) the metadata is silently dropped on re-parse
-    if r = "" then .ok (.seq (.path "") {} seqItems) else .ok (.seq (.path r) kw seqItems)
+    if r = "" then .seq (.path "") {} seqItems else .seq (.path r) kw seqItems
 
 /-- `source_file` of a re-parsed `!path` node: the dumped mapping carries the original file name as the
     keyword `source_file`, which wins over `kwargs.setdefault('source_file', <file being parsed>)` -/
 def pathSourceOnReparse (env : Env) (f : Flags) : Option String := f.src.or env.src
 
-/-- whether the class has a tag of its own (`ayns.tag` is not None) -/
-def CompKind.tagged : CompKind → Bool
-  | .dict | .list | .stream => false
-  | _ => true
-
 mutual
 /-- `_node_representer(dumper, node)` with `dumper.metadata[-1] = st` -/
-def representWith (st : DStack) : Node → Except DumpErr Raw
+def representWith (st : DStack) : Node → Raw
   | .leaf f k => representLeaf st f k
   | .comp f k cs =>
     let kw := nodeInfo st (.comp f k cs)
-    let st' := pushStack st k.tagged kw
-    if k.isDictFam then
-      match representMap st' cs with
-      | .error e => .error e
-      | .ok items => representComp k kw [] items
-    else
-      match representSeq st' cs with
-      | .error e => .error e
-      | .ok items => representComp k kw items []
-def representSeq (st : DStack) : List (Key × Node) → Except DumpErr (List Raw)
-  | [] => .ok []
-  | (_, c) :: rest =>
-    match representWith st c with
-    | .error e => .error e
-    | .ok r =>
-      match representSeq st rest with
-      | .error e => .error e
-      | .ok rs => .ok (r :: rs)
-def representMap (st : DStack) : List (Key × Node) → Except DumpErr (List (Key × Raw))
-  | [] => .ok []
-  | (key, c) :: rest =>
-    match representWith st c with
-    | .error e => .error e
-    | .ok r =>
-      match representMap st rest with
-      | .error e => .error e
-      | .ok rs => .ok ((key, r) :: rs)
+    let st' := pushStack st kw (handedDelete f k)
+    if k.isDictFam then representComp k kw [] (representMap st' cs)
+    else representComp k kw (representSeq st' cs) []
+def representSeq (st : DStack) : List (Key × Node) → List Raw
+  | [] => []
+  | (_, c) :: rest => representWith st c :: representSeq st rest
+def representMap (st : DStack) : List (Key × Node) → List (Key × Raw)
+  | [] => []
+  | (key, c) :: rest => (key, representWith st c) :: representMap st rest
 end
 
 /-- `yaml.dump(node)`: the stack starts empty -/
-def represent (n : Node) : Except DumpErr Raw := representWith {} n
+def represent (n : Node) : Raw := representWith {} n
 
 /-- dump, parse again -/
-def reparse (env : Env) (n : Node) : Option (Except Err Node) :=
-  match represent n with
-  | .error _ => none
-  | .ok r => some (construct env r)
+def reparse (env : Env) (n : Node) : Except Err Node := construct env (represent n)
 
 end AY
